@@ -42,6 +42,17 @@ type kindDef struct {
 	nMax  int
 }
 
+// WrappedDSC / WrappedSource: user structs that embed a typed document (and the best-checksum selector) anonymously.
+type WrappedDSC struct {
+	control.DSC
+	Note string `control:"X-Note"`
+}
+
+type WrappedSource struct {
+	control.SourceIndex
+	control.BestChecksums
+}
+
 var kinds = []kindDef{
 	{"dsc", func(int) [][]FSpec { return [][]FSpec{dscFields()} }, 1, 1, 1},
 	{"changes", func(int) [][]FSpec { return [][]FSpec{changesFields()} }, 1, 1, 1},
@@ -67,6 +78,14 @@ var kinds = []kindDef{
 		return out
 	}, 2, 1, 3},
 	{"debcontrol", func(int) [][]FSpec { return [][]FSpec{debControlFields()} }, 1, 1, 1},
+	{"embedded-dsc", func(int) [][]FSpec { return [][]FSpec{dscFields()} }, 1, 1, 1},
+	{"embedded-sources", func(n int) [][]FSpec {
+		var out [][]FSpec
+		for i := 0; i < n; i++ {
+			out = append(out, sourcesFields(fmt.Sprintf("hello%d", i)))
+		}
+		return out
+	}, 2, 1, 2},
 }
 
 var (
@@ -196,6 +215,24 @@ func parse(in In, text string) (paras []reflect.Value, err error) {
 			return nil, e
 		}
 		return []reflect.Value{reflect.ValueOf(&c).Elem()}, nil
+	case "embedded-dsc":
+		// a user type that embeds the library's typed document anonymously
+		var w WrappedDSC
+		if e := control.Unmarshal(&w, br); e != nil {
+			return nil, e
+		}
+		w.DSC.Filename = docPath
+		return []reflect.Value{reflect.ValueOf(&w.DSC).Elem()}, nil
+	case "embedded-sources":
+		var l []WrappedSource
+		if e := control.Unmarshal(&l, br); e != nil {
+			return nil, e
+		}
+		var out []reflect.Value
+		for i := range l {
+			out = append(out, reflect.ValueOf(&l[i].SourceIndex).Elem())
+		}
+		return out, nil
 	}
 	return nil, fmt.Errorf("unknown kind %s", in.Kind)
 }
@@ -306,7 +343,7 @@ func accessors(scen string, in In, tables [][]FSpec, paras []reflect.Value) []*m
 		vs = append(vs, mc.V(scen, "accessor-agrees-with-model", in, name+" = "+w, g, append([]string{"accessor:" + name}, feats...)...))
 	}
 	switch in.Kind {
-	case "dsc":
+	case "dsc", "embedded-dsc":
 		d := paras[0].Addr().Interface().(*control.DSC)
 		mf, mc0 := choiceOf(in, tables, 0, "Maintainer")
 		uf, uc := choiceOf(in, tables, 0, "Uploaders")
@@ -332,11 +369,32 @@ func accessors(scen string, in In, tables [][]FSpec, paras []reflect.Value) []*m
 			}
 		}
 		var gotAbs []string
-		for _, f := range d.AbsFiles() {
+		abs := d.AbsFiles()
+		for _, f := range abs {
 			gotAbs = append(gotAbs, f.Filename)
 		}
 		if strings.Join(gotAbs, "|") != strings.Join(wantAbs, "|") {
 			bad("dsc.AbsFiles()", strings.Join(wantAbs, "|"), strings.Join(gotAbs, "|"))
+		}
+		// apart from the joined path every entry is the listed tuple; and the accessor leaves Files as decoded
+		for i := range abs {
+			if i < len(d.Files) {
+				w := d.Files[i]
+				w.Filename = abs[i].Filename
+				if abs[i] != w {
+					bad("dsc.AbsFiles()[i]", fmt.Sprintf("%+v", w), fmt.Sprintf("%+v", abs[i]))
+				}
+			}
+		}
+		if g := Observe(paras[0].FieldByName("Files"), "md5"); g != want(ff, fc) {
+			bad("dsc.Files after AbsFiles()", want(ff, fc), g)
+		}
+		var again []string
+		for _, f := range d.AbsFiles() {
+			again = append(again, f.Filename)
+		}
+		if strings.Join(again, "|") != strings.Join(wantAbs, "|") {
+			bad("dsc.AbsFiles() called twice", strings.Join(wantAbs, "|"), strings.Join(again, "|"))
 		}
 		g, err := d.DebianSource()
 		if (err == nil) != (wantDeb != "") || g != wantDeb {
@@ -354,11 +412,24 @@ func accessors(scen string, in In, tables [][]FSpec, paras []reflect.Value) []*m
 				wantAbs = append(wantAbs, filepath.Join(filepath.Dir(docPath), strings.Fields(l)[4]))
 			}
 		}
-		for _, f := range c.AbsFiles() {
+		abs := c.AbsFiles()
+		for _, f := range abs {
 			gotAbs = append(gotAbs, f.Filename)
 		}
 		if strings.Join(gotAbs, "|") != strings.Join(wantAbs, "|") {
 			bad("changes.AbsFiles()", strings.Join(wantAbs, "|"), strings.Join(gotAbs, "|"))
+		}
+		for i := range abs {
+			if i < len(c.Files) {
+				w := c.Files[i]
+				w.Filename = abs[i].Filename
+				if abs[i] != w {
+					bad("changes.AbsFiles()[i]", fmt.Sprintf("%+v", w), fmt.Sprintf("%+v", abs[i]))
+				}
+			}
+		}
+		if g := Observe(paras[0].FieldByName("Files"), "chfiles"); g != want(ff, fc) {
+			bad("changes.Files after AbsFiles()", want(ff, fc), g)
 		}
 	case "control":
 		s := paras[0].Addr().Interface().(*control.SourceParagraph)
